@@ -20,7 +20,8 @@
 (*   4. Sampled:  NSample pseudo-random declarations of 2..MaxMethods      *)
 (*                methods drawn with a Wichmann-Hill generator seeded by   *)
 (*                VERIF_SEED (weights favour shared prefixes, colliding    *)
-(*                segments and repeated names).                            *)
+(*                segments, routes that extend an earlier route, and       *)
+(*                handler names repeated on any earlier route).            *)
 (***************************************************************************)
 EXTENDS HzRouterGen, Json, IOUtils, SequencesExt
 
@@ -58,7 +59,15 @@ Fixed == <<
    \* a route that is also a prefix, declared before / after the longer route, root and trailing slash, Any
    MkCase(Opt(0), <<M("GET", <<"a", "b">>, "A", ""), M("GET", <<"a">>, "B", ""), M("POST", <<"a", "a">>, "C", "")>>),
    MkCase(Opt(1), <<M("GET", <<"a", "b">>, "A", ""), M("GET", <<"a">>, "B", ""), M("POST", <<"a", "a">>, "C", "")>>),
-   MkCase(Opt(4), <<M("Any", <<"">>, "A", ""), M("GET", <<"a", "">>, "B", "x"), M("Any", <<"a">>, "C", "y/x"), M("GET", <<":id", "*rest">>, "Id", "")>>)
+   MkCase(Opt(4), <<M("Any", <<"">>, "A", ""), M("GET", <<"a", "">>, "B", "x"), M("Any", <<"a">>, "C", "y/x"), M("GET", <<":id", "*rest">>, "Id", "")>>),
+   \* a route declared BEFORE a longer route it prefixes (without sort_router its node is a handler AND a group)
+   \* x its handler name bound to a second route x snake-style names, without / with sort_router, by service / by method
+   MkCase(Opt(2), <<M("GET", <<"a">>, "A", ""), M("GET", <<"a", "b">>, "B", ""), M("POST", <<"b">>, "A", "")>>),
+   MkCase(Opt(2), <<M("POST", <<"b">>, "A", ""), M("GET", <<"a">>, "A", ""), M("GET", <<"a", "b">>, "B", "")>>),
+   MkCase(Opt(6), <<M("GET", <<"a">>, "A", "x"), M("POST", <<"a", "">>, "B", ""), M("POST", <<"a-b">>, "A", "x")>>),
+   MkCase(Opt(2), <<M("GET", <<"a", "b">>, "A", ""), M("Any", <<"a", "b", ":id">>, "B", ""), M("GET", <<"a">>, "A", ""), M("POST", <<"a", "a_b">>, "A", "")>>),
+   MkCase(Opt(3), <<M("GET", <<"a">>, "A", ""), M("GET", <<"a", "b">>, "B", ""), M("POST", <<"b">>, "A", "")>>),
+   MkCase(Opt(0), <<M("GET", <<"a">>, "A", ""), M("GET", <<"a", "b">>, "B", ""), M("POST", <<"b">>, "A", "")>>)
 >>
 
 \* ---- 2. every single-method declaration
@@ -88,13 +97,19 @@ RECURSIVE Draws(_, _)
 Draws(s, n) == IF n = 0 THEN << >> ELSE <<Val(s)>> \o Draws(WH(s), n - 1)
 Pick(w, v) == w[(v % Len(w)) + 1]
 
-PerMethod == 8
-\* method k of a sampled case from draws r (offset o)
+PerMethod == 10
+CanExtend(q) == Len(q) < MaxDepth /\ q[Len(q)] # "" /\ ~IsCatchAll(q[Len(q)])
+\* method k of a sampled case from draws r (offset o); prev = the methods accepted so far.
+\* One draw in three the path EXTENDS the path of an earlier method (so that a route declared before is a prefix of
+\* this one: without sort_router its tree node becomes handler and group at once); one draw in four the handler
+\* name is that of an earlier method (one IDL function with several annotations), prefix routes included.
 SampleMethod(r, o, k, prev) ==
     LET d == Pick(DepthW, r[o + 1])
         dd == IF d > MaxDepth THEN MaxDepth ELSE d
-        p == [j \in 1 .. dd |-> IF j < dd THEN Pick(InnerW, r[o + 1 + j]) ELSE Pick(LastW, r[o + 4])]
-        nm == IF Len(prev) >= 1 /\ r[o + 6] % 8 = 0 THEN prev[(r[o + 7] % Len(prev)) + 1].name ELSE NameList[((k - 1) % Len(NameList)) + 1]
+        fresh == [j \in 1 .. dd |-> IF j < dd THEN Pick(InnerW, r[o + 1 + j]) ELSE Pick(LastW, r[o + 4])]
+        base == IF Len(prev) >= 1 THEN prev[(r[o + 10] % Len(prev)) + 1].path ELSE << >>
+        p == IF Len(prev) >= 1 /\ r[o + 9] % 3 = 0 /\ CanExtend(base) THEN Append(base, Pick(LastW, r[o + 4])) ELSE fresh
+        nm == IF Len(prev) >= 1 /\ r[o + 6] % 4 = 0 THEN prev[(r[o + 7] % Len(prev)) + 1].name ELSE NameList[((k - 1) % Len(NameList)) + 1]
     IN M(Pick(VerbW, r[o + 5]), p, nm, Pick(DirW, r[o + 8]))
 RECURSIVE Build(_, _, _, _)
 Build(r, k, n, acc) ==           \* draw n methods; a method that would make the declaration illegal is skipped
